@@ -73,6 +73,7 @@ type env struct {
 	stubc []queue.Client
 
 	failNextWrite int32
+	afterOpen     func(*wallet.Wallet) // optional: called on every wallet object right after SetQueueClient
 
 	// pause control (scripted interleavings): while `armed`, the goroutine that reaches a store access whose
 	// name is in `stops` announces it on `paused` and waits for `resume`.
@@ -134,6 +135,9 @@ func (e *env) openWallet() {
 	e.w = wallet.New(e.cfg)
 	e.w.VerifWrapStoreDB(func(d dbm.DB) dbm.DB { return &hookDB{DB: d, e: e} })
 	e.w.SetQueueClient(e.q.Client())
+	if e.afterOpen != nil {
+		e.afterOpen(e.w)
+	}
 }
 
 // restart closes the wallet object and opens a new one on the same store: the flag is locked again and the
